@@ -58,6 +58,8 @@ def make_engine(spec, tier="quick"):
 
 
 def main(argv):
+    # relative replay paths are meant relative to the caller's directory (we chdir to the repository below)
+    argv = [os.path.abspath(a) if (i > 0 and argv[0] == "replay" and not a.startswith("-")) else a for i, a in enumerate(argv)]
     _prepare()
     from annetsim import runner
     from annetsim.kernel import HarnessError
